@@ -512,8 +512,7 @@ public:
 		, mOutput(nullptr)
 	{
 		static_assert(TMode == SerializeMode::Load, "BitSerializer. This data type can be used only in 'Load' mode.");
-		// Validate the encoding of strings as the stream overload does (it transcodes the input, which rejects ill-formed UTF-8)
-		if (mRootJson.template Parse<rapidjson::kParseValidateEncodingFlag>(encodedInputStr.data(), encodedInputStr.length()).HasParseError()) {
+		if (mRootJson.Parse(encodedInputStr.data(), encodedInputStr.length()).HasParseError()) {
 			throw ParsingException(rapidjson::GetParseError_En(mRootJson.GetParseError()), 0, mRootJson.GetErrorOffset());
 		}
 	}
